@@ -3,6 +3,7 @@ import GomlVerif.Lemmas.C18Render
 import GomlVerif.Lemmas.C18Scope
 import GomlVerif.Lemmas.C18Escape
 import GomlVerif.Lemmas.C18Decode
+import GomlVerif.Lemmas.C18Eval
 /-!
 C18 — derived `ToString` / `ToJson` are total and faithful.
 
@@ -74,6 +75,26 @@ theorem toString_shape (Δ : Defs) (t : FTy) (v : Val) (hty : hasTy Δ t v = tru
 theorem derive_total (d : Def) :
     (genJson bindFresh d).scoped = true ∧ (genString bindFresh d).scoped = true :=
   ⟨genJson_scoped d, genString_scoped d⟩
+
+/-- **the generated code computes the value functions**: the body of the arm the derive generates
+    for a struct (resp. for the value's variant), evaluated under that arm's bindings — literals,
+    `+`, the runtime helpers by their meaning (`helperSem`), the field types' own derived methods —
+    is `toJson` / `toString` of the value.  With the AST tie of the check (`genJson`/`genString` =
+    what `derive::expand` appends) this connects the theorems above to the generated code itself. -/
+theorem generated_code_computes (Δ : Defs) (n : String) (g : Nat) :
+    (∀ (fs : List (String × FTy)) (vals : List Val), lookupStruct Δ n = some fs → hasTys Δ (fs.map (·.2)) vals = true →
+      (∀ arm ∈ (genJson bindFresh (.struct n g fs)).arms,
+        evalG Δ (armEnv arm.binders vals) arm.body = some (toJson Δ (.struct n vals))) ∧
+      (∀ arm ∈ (genString bindFresh (.struct n g fs)).arms,
+        evalG Δ (armEnv arm.binders vals) arm.body = some (Derive.toString Δ (.struct n vals)))) ∧
+    (∀ (vs : List (String × List FTy)) (idx : Nat) (vn : String) (tys : List FTy) (args : List Val),
+      lookupVariant Δ n idx = some (vn, tys) → vs[idx]? = some (vn, tys) → hasTys Δ tys args = true →
+      ((genJson bindFresh (.enum n g vs)).arms[idx]?).bind (fun arm => evalG Δ (armEnv arm.binders args) arm.body)
+        = some (toJson Δ (.enum n idx args)) ∧
+      ((genString bindFresh (.enum n g vs)).arms[idx]?).bind (fun arm => evalG Δ (armEnv arm.binders args) arm.body)
+        = some (Derive.toString Δ (.enum n idx args))) :=
+  ⟨fun _ _ hl hty => ⟨genJson_struct_eval hl hty, genString_struct_eval hl hty⟩,
+   fun _ _ _ _ _ hl hv hty => ⟨genJson_enum_eval hl hv hty, genString_enum_eval hl hv hty⟩⟩
 
 /-! ### the defects the proofs point at, as examples -/
 
